@@ -245,9 +245,29 @@ def model_json_print(cx, docs, ctxlines, component):
             continue
         reqs.append("%d jsontree print %s" % (len(back), r[2]))
         reqs.append("s%d jsontree spec %s" % (len(back), r[2]))
-        back.append((doc, wd, unhex(r[1]), r[2]))
+        # the independent RFC 8259 document reader of the Lean side (JsonTree/Doc.lean, what Props.C12.json_document_faithful is
+        # about) on libyang's real output and on damaged copies of it: must agree with Python's json (acceptance and content)
+        pj0 = unhex(r[1])
+        reqs.append("p%d jsontree docparse %s" % (len(back), hexs(pj0)))
+        bad = damage_json(cx, pj0, len(back))
+        reqs.append("q%d jsontree docparse %s" % (len(back), hexs(bad)))
+        back.append((doc, wd, pj0, r[2], bad))
     rm = cx.run_model(reqs) if reqs else {}
-    for i, (doc, wd, pj, view) in enumerate(back):
+    for i, (doc, wd, pj, view, bad) in enumerate(back):
+        for tag, text in (("p", pj), ("q", bad)):
+            mine = rm.get("%s%d" % (tag, i), ["err", "NoReply"])
+            try:
+                text.decode("utf-8")
+            except UnicodeDecodeError:
+                # the damage broke a multi-byte character: the byte-level reader does not judge UTF-8 well-formedness
+                cx.count(None, False, component + ":jsondoc-vs-python:ill-formed-utf8(out-of-fragment)")
+                continue
+            want = py_json_canon(text)
+            cx.count(("jsondoc", text), True, component + ":jsondoc-vs-python:" + ("ok" if want is not None else "reject"))
+            got = mine[1] if mine[0] == "ok" else None
+            if got != want and mine[:2] != ["err", "NoReply"]:
+                cx.disagree(component + "-jsondoc", "jsontree docparse " + text.decode("utf-8", "replace")[:1500], ["pyjson", str(want)[:1500]], mine[:2])
+    for i, (doc, wd, pj, view, bad) in enumerate(back):
         # the declarative specification (JsonTree/Spec.lean, what Props.C12.json_tree_refines_spec is about) on the same view
         sp = rm.get("s%d" % i, ["err", "NoReply"])
         if sp[0] == "ok":
@@ -263,6 +283,76 @@ def model_json_print(cx, docs, ctxlines, component):
         if r[0] != "ok" or unhex(r[1]) != pj:
             cx.disagree(component + "-jsontree", ("jsontree print wd=%s " % WDN[wd]) + view[:3000], ["ok", pj.decode("utf-8", "replace")[:1500]],
                         [r[0], (unhex(r[1]).decode("utf-8", "replace") if r[0] == "ok" else "")[:1500]])
+
+
+def damage_json(cx, text, salt):
+    """a structurally damaged copy of a JSON text (mostly no longer JSON): guards the reader's rejections"""
+    rng = cx.sub_rng("damage%d" % salt)
+    if len(text) < 3:
+        return text + b","
+    k = rng.randrange(8)
+    i = rng.randrange(len(text))
+    if k == 0:
+        return text[:i] + text[i + 1:]
+    if k == 1:
+        return text[:i] + rng.choice([b",", b":", b"}", b"]", b"{", b"[", b'"', b" ", b"0", b"-", b"e"]) + text[i:]
+    if k == 2:
+        return text[:i]
+    if k == 3:
+        return text.replace(b",", b",,", 1)
+    if k == 4:
+        return text.replace(b":", b" :\t", 1).replace(b",", b" ,\n ", 1)          # insignificant white space: still JSON
+    if k == 5:
+        return text.replace(b"[", b"[ ", 1).replace(b"{", b"{\r\n", 1) + b" \n"       # still JSON
+    if k == 6:
+        return text.replace(b":1", b":01", 1).replace(b":-", b":+", 1)
+    return text + rng.choice([b"x", b"}", b",", b" ", b"null"])
+
+
+def py_json_canon(text):
+    """Python's json as the external reference: canonical rendering like the driver's `canon`, None if not RFC 8259 JSON"""
+    class L(str):
+        pass
+
+    def bad(_):
+        raise ValueError("constant")
+    try:
+        t = text.decode("utf-8")
+        v = json.loads(t, object_pairs_hook=lambda ps: ("O", ps), parse_int=L, parse_float=L, parse_constant=bad)
+    except Exception:
+        return None
+
+    def has_surrogate(x):
+        return any(0xD800 <= ord(c) <= 0xDFFF for c in x)
+
+    def hx(b):
+        return b.hex() or "-"            # the driver's Hex.enc writes "-" for the empty string
+
+    def canon(x):
+        if isinstance(x, L):
+            return "l" + hx(x.encode())
+        if isinstance(x, str):
+            if has_surrogate(x):
+                raise ValueError("lone surrogate")
+            return "s" + hx(x.encode("utf-8"))
+        if x is True:
+            return "l" + hx(b"true")
+        if x is False:
+            return "l" + hx(b"false")
+        if x is None:
+            return "l" + hx(b"null")
+        if isinstance(x, tuple) and x[0] == "O":
+            for k, _ in x[1]:
+                if has_surrogate(k):
+                    raise ValueError("lone surrogate")
+            return "{" + ",".join(hx(k.encode("utf-8")) + ":" + canon(w) for k, w in x[1]) + "}"
+        if isinstance(x, list):
+            return "[" + ",".join(canon(w) for w in x) + "]"
+        raise ValueError("type")
+    try:
+        return canon(v)
+    except ValueError:
+        return None
 
 
 def classify(component, what, case):
